@@ -44,11 +44,16 @@ def main(tier, replay):
     # 520 / 1030 levels in one bit-packed run (65 / 129 groups: two-byte run header)
     for k in ((65,) if quick else (65, 129)):
         J('bitpacked-%d-groups-flat_int64' % k, 'flat_int64', [0, k * 8, 1, 1, 1, 0, 0, 0, 0, 0, 0])
+    # one bit-packed run of 257 groups at width 1 and of 129 groups at width 2: width x groups crosses 256
+    J('bitpacked-257-groups-w1-flat_int64', 'flat_int64', [0, 2056, 1, 1, 1, 0, 0, 0, 0, 0, 0])
+    jobs[-1]['opt']['max_steps'] = 80000000
+    J('bitpacked-129-groups-w2-p4', 'p4', [0, 1030, 1, 1, 1, 0, 0, 0, 0, 0, 0])
+    jobs[-1]['opt']['max_steps'] = 80000000
     J('sens-rows', 'p1', [0, 2, 1, 1, 1, 0, 0, 1, 0, 0, 1], expect='Rows')
     run_program_jobs(c, mod, infos, jobs, native_templates=NATIVE)
     c.programs = len(P)
     c.bounds = {'records': '3 fixed-structure records (three structures), or 1 free + 1 fixed; long pages of 9, 17 and 520 (1030 thorough) records',
-                'level streams': 'five run-segmentation strategies (single bit-packed run with SYMBOLIC padding values in the last group; maximal RLE runs incl. length 1; RLE for repeats >= 2 else bit-packed groups; every RLE run split in two; bit-packed prefix + RLE tail); bit-packed runs of 65 and 129 groups',
+                'level streams': 'five run-segmentation strategies (single bit-packed run with SYMBOLIC padding values in the last group; maximal RLE runs incl. length 1; RLE for repeats >= 2 else bit-packed groups; every RLE run split in two; bit-packed prefix + RLE tail); bit-packed runs of 65, 129 and 257 groups (width 1) and 129 groups (width 2)',
                 'pages / row groups': 'one page per chunk, one page per record, chosen at every record boundary; one row group, one per record, chosen', 'codec': 'fixed, or chosen independently per column',
                 'optional thrift fields': 'created_by, key_value_metadata, statistics.null_count, crc present or absent',
                 'outside': 'NOT decided: real snappy streams with literals and copies (A3: the snappy decoder is a stub) and the thrift wire form of optional fields (A2); more than 3 runs kinds per stream beyond the five strategies'}
